@@ -23,6 +23,7 @@ type c04Scenario struct {
 	Conns     []c04Conn  `json:"connections"`
 	Seg       int        `json:"segmentation"`
 	LatencyNs int64      `json:"latency_ns"`
+	NoRoutes  bool       `json:"application_registers_no_route,omitempty"` // unhandled IQ requests are answered by the library itself
 }
 
 func init() {
@@ -56,6 +57,7 @@ func runC04(e *Engine, g G, o RunOpt) RunInfo {
 		s.Cert = []int{CertGood, CertGood, CertBoth, CertWrongHost, CertUntrusted, CertExpired, CertAbort, CertAltName}[g.N("cert", 8)]
 		s.ExtraFeats = g.Bool("extra")
 		s.DelayMs = []int{0, 0, 15}[g.N("delay", 3)]
+		s.ProbeOnClose = g.Pct("probe-after-failure", 30)
 		via := "Connect"
 		if i > 0 && g.Bool("via") {
 			via = "Resume"
@@ -63,6 +65,7 @@ func runC04(e *Engine, g G, o RunOpt) RunInfo {
 		sc.Conns = append(sc.Conns, c04Conn{Server: s, Via: via})
 	}
 	sc.Seg, sc.LatencyNs = netModes(g, e)
+	sc.NoRoutes = g.Bool("no-routes")
 
 	type attempt struct {
 		err   error
@@ -81,7 +84,9 @@ func runC04(e *Engine, g G, o RunOpt) RunInfo {
 			srv.Scripts = append(srv.Scripts, c.Server)
 		}
 		w := NewCW(e, sc.Client, sharedCerts())
-		w.CatchAll()
+		if !sc.NoRoutes {
+			w.CatchAll()
+		}
 		if err := w.Create(); err != nil {
 			return
 		}
@@ -143,8 +148,15 @@ func runC04(e *Engine, g G, o RunOpt) RunInfo {
 		if len(a.conn.Recv) > 0 {
 			reached = true
 		}
+		closedSeen := false
 		for _, r := range a.conn.Recv {
 			k := classifyReq(r)
+			if r.Item.Kind == ItemClose {
+				closedSeen = true
+			} else if closedSeen && r.Item.Elem != nil && (r.Item.Elem.Local == "iq" || r.Item.Elem.Local == "message" || r.Item.Elem.Local == "presence") {
+				// written after the client's own closing tag (the splitter sees it as a new root): still a stanza on this connection
+				k = "stanza:" + r.Item.Elem.Local
+			}
 			if !sensitive(k) {
 				continue
 			}
